@@ -682,6 +682,12 @@ type rtspReq struct {
 // request was an accepted PLAY — waits for media, or — when it was an accepted
 // RECORD — looks at the registry. SETUPs are expanded to both tracks.
 func (sh *shard) runRTSP(c *rtspc.Client, reqs []rtspReq, overWS bool) obs {
+	return sh.runRTSPPre(c, reqs, overWS, nil)
+}
+
+// runRTSPPre: as runRTSP; pre[i] (if any) runs right before request i is sent —
+// an administrator's edit between two requests of the connection.
+func (sh *shard) runRTSPPre(c *rtspc.Client, reqs []rtspReq, overWS bool, pre map[int]func()) obs {
 	o := obs{}
 	add := func(h map[string]string, k, v string) map[string]string {
 		if h == nil {
@@ -712,9 +718,12 @@ func (sh *shard) runRTSP(c *rtspc.Client, reqs []rtspReq, overWS bool) obs {
 	mode := ""
 	lastOK := false
 	var announced string
-	for _, rq := range reqs {
+	for i, rq := range reqs {
 		u := sh.s.RTSP(rq.Path)
 		lastOK = false
+		if f := pre[i]; f != nil {
+			f()
+		}
 		switch rq.Method {
 		case "DESCRIBE":
 			r, err := do("DESCRIBE", u, rq.Auth, map[string]string{"Accept": "application/sdp"}, nil)
